@@ -322,6 +322,54 @@ def random_problems(draw, tier):
 
 
 @st.composite
+def wide_problems(draw, tier):
+    """Products and sums of 3-5 tensors of order 2-3 that share few or no indexes (up to 15 distinct index names),
+    nested to the right, to the left or balanced, mostly dense: the space of candidate iteration graphs is astronomically
+    large here, so generation only returns if the search for the first legal graph is lazy."""
+    n = draw(st.integers(3, 5))
+    pool = [f"i{q}" for q in range(15)]
+    used = []
+    leaves = []
+    for q in range(n):
+        k = draw(st.sampled_from([2, 3, 3]))
+        idxs = []
+        for _ in range(k):
+            fresh = [i for i in pool if i not in used]
+            if used and (not fresh or draw(st.integers(0, 5)) == 0):
+                cand = [i for i in used if i not in idxs]
+                if not cand:
+                    continue
+                i = draw(st.sampled_from(cand))
+            else:
+                i = fresh[0]
+                used.append(i)
+            idxs.append(i)
+        leaves.append(["t", "abcde"[q], idxs])
+    op = draw(st.sampled_from("***+"))
+    nest = draw(st.sampled_from(["right", "right", "left", "balanced"]))
+
+    def build(ls):
+        if len(ls) == 1:
+            return ls[0]
+        k = {"right": 1, "left": len(ls) - 1, "balanced": len(ls) // 2}[nest]
+        return [op, build(ls[:k]), build(ls[k:])]
+
+    tree = build(leaves)
+    allidx = X.indexes_of(tree)
+    if op == "+":
+        # every term of a sum must mention every target index, so keep the target small or empty
+        common = [i for i in allidx if all(i in t[2] for t in leaves)]
+        tgt = common[:2]
+    else:
+        tgt = list(draw(st.permutations(allidx)))[: draw(st.integers(0, 3))]
+    fm = {"o": draw(gen.formats(len(tgt), sparse_bias=0.4))}
+    for t in leaves:
+        fm[t[1]] = draw(gen.formats(len(t[2]), sparse_bias=0.4)) if draw(st.integers(0, 3)) == 0 else "d" * len(t[2])
+    return {"assignment": X.assignment_text(["o", tgt], tree), "formats": fm, "kinds": draw(st.sampled_from(KIND_SUBSETS)),
+            "language": draw(st.sampled_from(["c", "llvm"])), "shape": f"wide-{nest}", "indexes": sorted(set(allidx))}
+
+
+@st.composite
 def reserved_problems(draw, tier):
     """A small valid problem in which one tensor or index is spelled as a reserved word."""
     base = draw(st.sampled_from(["o(i) = a(i,j) * x(j)", "o(i) = a(i) + b(i)", "o() = a(i)", "o(i,j) = a(j,i)"]))
@@ -359,6 +407,7 @@ def check_random(case, ctx=None):
 STREAMS = {
     "random": {"strategy": random_problems, "check": check_random},
     "reserved": {"strategy": reserved_problems, "check": check_random},
+    "wide": {"strategy": wide_problems, "check": check_random},
 }
 
 
